@@ -279,3 +279,6 @@ class C03(Prop):
 
 
 PROP = C03()
+
+PROP.rule += (" Strata added while closing seeded changes (DESIGN section 10): "
+              "mixed-case spellings of STRT/STOP/STEP/NULL, duplicated NULL, integers beyond 2**53 and beyond int64, one-sided brackets in units, '..' inside values, reads into a used LASFile.")
